@@ -118,6 +118,14 @@ def check_api(case, ctx):
     extra = {"opts": opts} if opts else {}
     dscheck.check_slices(ctx, ID, spec, ds, data, menu, axes, extra=extra)
     dscheck.check_all_axis(ctx, ID, spec, ds, menu[:6], lambda: mat.make_data(spec, opts), extra=extra)
+    # the same requests on an object that has already served whole-array requests (as diagrams and the driver's
+    # default thresholds do): an input without observations shares its donor's array, so nothing may be changed in it
+    import verif.axis
+    data3 = mat.make_data(spec, opts)
+    for i in range(n_in):
+        data3.get_scores(mat.vfield(("obs",)), i, verif.axis.All(), None)
+        data3.get_scores(mat.vfield(("fcst",)), i, verif.axis.All(), None)
+    dscheck.check_slices(ctx, ID + "/after-all-axis", spec, ds, data3, menu[:3], axes[:2], extra=extra)
     # independence: alter the non-missing forecast values of one input
     if n_in > 1:
         k = case.get("alter", 0) % n_in
